@@ -176,7 +176,8 @@ var checks = []Check{
 		LevelText:   "every combination of scripted per-node cursor chains (17 shapes per node, 1-3 nodes, cursors up to 2^48-1) iterated from cursor 0 through the real proxy; MATCH/COUNT/TYPE pass-through; every client-supplied cursor class; lossless cursor composition for all power-of-two boundaries",
 		Technique:   "exhaustive enumeration of node cursor histories on the real proxy stack under a controlled scheduler",
 		Assumptions: append([]string{"scripted SCAN answers of the mini cluster (well-formed replies; malformed ones belong to C11)"}, engineAssumptions...),
-		Jobs:        []Job{{Pkg: "proc/redis", Scenarios: []string{"C18/scan"}, Shards: 16, QuickS: 90, ThoroughS: 300}},
+		Jobs: []Job{{Pkg: "proc/redis", Scenarios: []string{"C18/scan"}, Shards: 16, QuickS: 90, ThoroughS: 300},
+			{Pkg: "proc/redis", Scenarios: []string{"C18/scan-schedules"}, Shards: 16, QuickS: 60, ThoroughS: 600}},
 	},
 	{
 		ID: "C14", Title: "only supported commands reach backends; writes only reach masters", Level: "exploration",
@@ -198,6 +199,7 @@ var checks = []Check{
 		Jobs: []Job{
 			{Pkg: "proc/redis", Scenarios: []string{"C03/programs"}, Shards: 16, QuickS: 100, ThoroughS: 900},
 			{Pkg: "proc/redis", Scenarios: []string{"C03/values"}, Shards: 16, QuickS: 60, ThoroughS: 300},
+			{Pkg: "proc/redis", Scenarios: []string{"C03/refresh-concurrent"}, Shards: 16, QuickS: 60, ThoroughS: 600},
 		},
 	},
 	{
